@@ -29,7 +29,7 @@ ASSUMPTIONS = [
     "There is no fermionic normal_order in this PennyLane version; FermiWord.shift_operator (reordering by the "
     "anticommutation relations) is checked in its place.",
 ]
-BUDGET = {"quick": {"examples": 300}, "thorough": {"examples": 30000, "shards": 16}}
+BUDGET = {"quick": {"examples": 300}, "thorough": {"examples": 12000, "shards": 16}}
 SHRINK_LISTS = ("A", "B", "f")
 TOL = 1e-10
 
@@ -67,7 +67,7 @@ def _case(draw, tier):
         "k": draw(_coef),
         "ps": draw(st.booleans()),
         "wm": None if wm is None else {"kind": wm, "perm": list(draw(st.permutations(list(range(n))))),
-                                       "labels": draw(gen.wire_labels(6))},
+                                       "labels": draw(gen.wire_labels(6)) + ["g7", 11][: max(0, n - 6)]},
         "tol": draw(st.sampled_from([None, None, 1e-12, 1e-8])),
         "shift": [draw(st.integers(0, 3)), draw(st.integers(0, 3))],
     }
